@@ -71,31 +71,104 @@ def _run_chunk(chunk):
     return out
 
 
+def _worker_main(modname, wid, tasks, results):
+    try:
+        _init_worker(modname)
+    except Exception as e:
+        results.put(("initfail", wid, "%s: %s\n%s" % (type(e).__name__, e, traceback.format_exc())))
+        return
+    while True:
+        item = tasks.get()
+        if item is None:
+            return
+        idx, case = item
+        results.put(("start", wid, idx))
+        out = _run_chunk([(idx, case)])[0]
+        results.put(("done", wid, idx, out))
+
+
 def run_cases(modname, cases, workers=None, chunk=None):
-    """Runs every case; returns results in case order."""
+    """Runs every case on a pool of long-lived worker processes; a case that exceeds the per-case time limit
+    (a hang inside compiled code cannot be interrupted) gets its worker killed and is reported as a violation
+    of kind 'hangs'. Returns results in case order."""
+    import queue as _q
     cases = list(cases)
     n = len(cases)
     workers = workers or int(os.environ.get("VERIF_WORKERS", "16"))
     workers = max(1, min(workers, n))
+    mod = importlib.import_module(modname)
+    limit = float(os.environ.get("VERIF_CASE_TIMEOUT", getattr(mod, "CASE_TIMEOUT", 900)))
     results = [None] * n
-    if workers == 1 or n <= 2:
-        _init_worker(modname)
-        for r in _run_chunk(list(enumerate(cases))):
-            results[r["idx"]] = r
-        return cases, results
-    chunk = chunk or max(1, min(64, n // (workers * 8) or 1))
-    chunks = [list(zip(range(i, min(i + chunk, n)), cases[i:i + chunk])) for i in range(0, n, chunk)]
     ctx = mp.get_context("spawn")
-    with ctx.Pool(workers, initializer=_init_worker, initargs=(modname,)) as pool:
-        for rs in pool.imap_unordered(_run_chunk, chunks):
-            for r in rs:
-                results[r["idx"]] = r
+    tasks = ctx.Queue()
+    resq = ctx.Queue()
+    # heavy cases first when the module provides a weight
+    order = list(range(n))
+    if hasattr(mod, "weight"):
+        order.sort(key=lambda i: -mod.weight(cases[i]))
+    for i in order:
+        tasks.put((i, cases[i]))
+    procs = {}
+    running = {}
+
+    def start(wid):
+        p = ctx.Process(target=_worker_main, args=(modname, wid, tasks, resq), daemon=True)
+        p.start()
+        procs[wid] = p
+
+    for w in range(workers):
+        start(w)
+    done = 0
+    while done < n:
+        try:
+            msg = resq.get(timeout=1.0)
+        except _q.Empty:
+            msg = None
+        now = time.time()
+        if msg is not None:
+            if msg[0] == "start":
+                running[msg[1]] = (msg[2], now)
+            elif msg[0] == "done":
+                running.pop(msg[1], None)
+                results[msg[2]] = msg[3]
+                done += 1
+            elif msg[0] == "initfail":
+                for p in procs.values():
+                    p.terminate()
+                raise RuntimeError("worker initialisation failed: " + msg[2])
+        for wid, (idx, t0) in list(running.items()):
+            if now - t0 > limit:
+                procs[wid].kill()
+                procs[wid].join(5)
+                running.pop(wid)
+                sig = mod.hang_sig(cases[idx]) if hasattr(mod, "hang_sig") else "case hangs"
+                results[idx] = {"idx": idx, "viol": [{"sig": sig, "hang": True,
+                                                     "msg": "no answer within %.0f s (worker killed)" % limit}]}
+                done += 1
+                start(wid)
+        for wid, p in list(procs.items()):
+            if not p.is_alive() and wid in running:
+                idx, t0 = running.pop(wid)
+                sig = (mod.hang_sig(cases[idx]) if hasattr(mod, "hang_sig") else "case hangs").replace("hangs", "crashes the interpreter")
+                results[idx] = {"idx": idx, "viol": [{"sig": sig, "hang": True,
+                                                     "msg": "worker process died (exit code %r)" % p.exitcode}]}
+                done += 1
+                start(wid)
+    for _ in procs:
+        tasks.put(None)
+    for p in procs.values():
+        p.join(2)
+        if p.is_alive():
+            p.terminate()
     return cases, results
 
 
-def confirm_in_fresh_process(pid, path):
-    r = subprocess.run([PYTHON, "-m", "mcheck.run", pid, "--replay", path, "--noconfirm"],
-                       cwd=VERIF, stdout=subprocess.PIPE, stderr=subprocess.STDOUT, text=True)
+def confirm_in_fresh_process(pid, path, hang=False, limit=900):
+    try:
+        r = subprocess.run([PYTHON, "-W", "ignore", "-m", "mcheck.run", pid, "--replay", path, "--noconfirm"],
+                           cwd=VERIF, stdout=subprocess.PIPE, stderr=subprocess.STDOUT, text=True, timeout=limit + 30)
+    except subprocess.TimeoutExpired:
+        return hang, "replay timed out"
     return r.returncode == 1 and "VIOLATION" in r.stdout, r.stdout
 
 
@@ -168,7 +241,8 @@ def main_check(pid, tier, seed):
                            "n_cases_with_signature": len(lst),
                            "replay": "./check %s --replay %s" % (pid, path)}, f, indent=1, default=str)
             if not c.get("post"):
-                ok, out = confirm_in_fresh_process(pid, path)
+                ok, out = confirm_in_fresh_process(pid, path, hang=bool(v.get("hang")),
+                                                   limit=float(os.environ.get("VERIF_CASE_TIMEOUT", getattr(mod, "CASE_TIMEOUT", 900))))
                 if not ok:
                     print("HARNESS-ERROR property=%s violation did not reproduce in a fresh process: %s\n%s" % (
                         pid, path, out[-1500:]))
@@ -245,6 +319,17 @@ def main_replay(pid, path, confirm=True):
     from . import loader
     loader.load()
     mod = importlib.import_module("checks.%s" % pid.lower())
+    limit = float(os.environ.get("VERIF_CASE_TIMEOUT", getattr(mod, "CASE_TIMEOUT", 900)))
+
+    def _watchdog():
+        # runs while the main thread is stuck in compiled code (the tree builder releases the GIL)
+        print("   no answer within %.0f s: the case hangs" % limit)
+        print("VIOLATION property=%s replay=%s" % (pid, path), flush=True)
+        os._exit(1)
+    import threading
+    tm = threading.Timer(limit, _watchdog)
+    tm.daemon = True
+    tm.start()
     with open(path) as f:
         d = json.load(f)
     case = d["case"] if "case" in d else d
